@@ -422,6 +422,25 @@ type Tree struct {
 	NFiles int
 }
 
+func isUUID(s string) bool {
+	if len(s) != 36 {
+		return false
+	}
+	for i, c := range s {
+		switch i {
+		case 8, 13, 18, 23:
+			if c != '-' {
+				return false
+			}
+		default:
+			if !(c >= '0' && c <= '9' || c >= 'a' && c <= 'f' || c >= 'A' && c <= 'F') {
+				return false
+			}
+		}
+	}
+	return true
+}
+
 // Walk lists the storage roots.
 func Walk(roots []string) (Tree, error) {
 	t := Tree{Dirs: map[string]map[string][]string{}}
@@ -435,7 +454,7 @@ func Walk(roots []string) (Tree, error) {
 			return t, err
 		}
 		for _, e := range ents {
-			if !e.IsDir() {
+			if !e.IsDir() || !isUUID(e.Name()) {
 				t.Stray = append(t.Stray, filepath.Join(root, e.Name()))
 				continue
 			}
